@@ -181,8 +181,11 @@ async def _serial(sc: dict) -> dict:
         frame = frame_for(ident, nbytes)
         ids[frame] = ident
         frame_of_id[ident] = frame
-        ev.append({"k": "call", "id": ident, "t": ticks(loop.time()), "bits": units(frame_bits(frame)), "b": -1, "same": True})
-        task = loop.create_task(t.write_frame(frame))
+        async def one() -> None:      # the call event is the first step of the caller: its acceptance
+            ev.append({"k": "call", "id": ident, "t": ticks(loop.time()), "bits": units(frame_bits(frame)), "b": -1, "same": True})
+            await t.write_frame(frame)
+
+        task = loop.create_task(one())
         tasks.append(task)
         return task
 
@@ -240,7 +243,7 @@ async def _serial(sc: dict) -> dict:
     poked = sc.get("init") is not None
     return {"mode": "serial", "gap": ticks(tr.MIN_INTER_WRITE_GAP), "maxtok": 0,
             "init": sc["init"] if poked else CAP_UNITS, "t0": zero if poked else 0,
-            "ev": ev, "mw": [list(x) for x in sc.get("model_writes", [])],
+            "ev": ev, "mw": [], "zero": zero,
             "info": {"sig_writes": n_sig[0], "connected": connected, "topups": topups_seen[0], "errors": errors[:5],
                      "clients_not_done": len(not_done), "end_s": round(loop.time(), 3),
                      "active_gwy": t.get_extra_info("active_gwy")}}
@@ -304,7 +307,13 @@ async def _mqtt(sc: dict) -> dict:
             m = _ID_RE.search(frame)
             ident = int(m.group(1)) if m else 0
         published_ids.add(ident)
-        ev.append({"k": "write", "id": ident, "t": ticks(loop.time()), "bits": 0, "b": -1, "same": same})
+        ev.append({"k": "write", "id": ident, "t": ticks(loop.time()), "bits": 0, "b": tok_units(), "same": same})
+
+    def tok_units() -> int:
+        try:
+            return int(round(t._num_tokens * 600000))
+        except Exception:  # noqa: BLE001
+            return -1
 
     t.client.on_publish_cb = on_pub
     t._on_message(t.client, None, _Msg(f"RAMSES/GATEWAY/{GWY}", b"online"))
@@ -313,6 +322,7 @@ async def _mqtt(sc: dict) -> dict:
     errors: list[str] = []
 
     async def one(ident: int, frame: str) -> None:
+        ev.append({"k": "call", "id": ident, "t": ticks(loop.time()), "bits": 0, "b": -1, "same": True})
         try:
             await t.write_frame(frame)
         except Exception as err:  # noqa: BLE001
@@ -324,7 +334,6 @@ async def _mqtt(sc: dict) -> dict:
         ident = counter[0]
         frame = frame_for(ident, nbytes)
         ids[frame] = ident
-        ev.append({"k": "call", "id": ident, "t": ticks(loop.time()), "bits": 0, "b": -1, "same": True})
         return loop.create_task(one(ident, frame))
 
     async def client(start: int, items: list) -> None:
@@ -357,8 +366,8 @@ async def _mqtt(sc: dict) -> dict:
     for c in not_done:
         c.cancel()
     await asyncio.sleep(0)
-    return {"mode": "mqtt", "gap": ticks(tr.MIN_INTER_WRITE_GAP), "maxtok": int(tr.MAX_TRANSMIT_RATE_TOKENS) * 1000,
-            "init": 0, "t0": 0, "ev": ev, "mw": [],
+    return {"mode": "mqtt", "gap": ticks(tr.MIN_INTER_WRITE_GAP), "maxtok": int(tr.MAX_TRANSMIT_RATE_TOKENS),
+            "init": 0, "t0": 0, "ev": ev, "mw": [], "zero": zero,
             "info": {"published": len(published_ids), "calls": counter[0], "errors": errors[:5],
                      "clients_not_done": len(not_done), "end_s": round(loop.time(), 3),
                      "connected": proto._transport is t}}
@@ -384,3 +393,40 @@ def run_scenarios(scs: list[dict], procs: int) -> list[dict]:
         return [run_scenario(s) for s in scs]
     with mp.get_context("fork").Pool(procs) as pool:
         return pool.map(run_scenario, scs, chunksize=1)
+
+
+def conform(results: list[dict], scs: list[dict], workers: int) -> dict:
+    """Search-based validation (spec/TxConform.tla): is each recorded serial execution a behaviour of
+    TxRegulator given its calls?  Returns which traces the model of the current code accepts and which the
+    model of the repaired code accepts."""
+    import os
+    import tempfile
+
+    from harness import tlc
+
+    idx, items = [], []
+    for i, (sc, r) in enumerate(zip(scs, results)):
+        if r["mode"] != "serial" or sc.get("clients") or not 1 <= len(sc.get("calls", [])) <= 8:
+            continue
+        zero = r["zero"]
+        calls = sorted(sc["calls"], key=lambda c: c[0])
+        items.append({"init": r["init"], "h": [[c[0], (330 + 20 * c[1]) * 10000] for c in calls],
+                      "rw": [[e["id"], e["t"] - zero] for e in r["ev"] if e["k"] == "write"]})
+        idx.append(i)
+    out = {"items": len(items), "index": idx}
+    if not items:
+        return out
+    fd, path = tempfile.mkstemp(suffix=".json", prefix="c11conf_")
+    os.close(fd)
+    try:
+        json.dump(items, open(path, "w"))
+        for name, cfg in (("as_is", "TxConform.cfg"), ("repaired", "TxConform_fixed.cfg")):
+            r = tlc.run_tlc("TxConform", cfg, workers=workers, env={"TRACE_FILE": path}, timeout=900)
+            if r.errors or r.violated:
+                raise tlc.MachineryFailure(f"{cfg}: {r.violated} {r.errors[:2]}\n{r.out[-1500:]}")
+            acc = {p[1] for p in r.prints if isinstance(p, tuple) and len(p) == 2 and p[0] == "ACCEPT"}
+            out[name] = {"accepted": len(acc), "rejected": [idx[k] for k in range(len(items)) if k + 1 not in acc],
+                         "states": r.distinct, "wall_s": round(r.wall_s, 1)}
+    finally:
+        os.unlink(path)
+    return out
